@@ -76,12 +76,13 @@ func coverSample(members []*seqMember, rng *rand.Rand, extra int) ([]*seqMember,
 // The labels are a constant of the specification (they depend on neither esbuild nor the seed):
 // spec/css_seq_labels.quick.json holds what the quick configuration of CssMC exports, with a hash of the
 // modules and the configuration.  With a fresh file the sample is drawn before TLC runs and its cases are
-// computed by the same CssGen run as the seeded sheets, while CssMC model-checks the family in parallel; the
-// labels TLC exports in that run must equal the file's.  Stale or absent file (and the thorough tier): the
-// sample is drawn after CssMC has finished (C12_WRITE_VOCAB=1 rewrites the file).
+// computed by the same CssGen run as the seeded sheets, while CssMC model-checks the family in parallel
+// (CssMC.quick.cfg: the laws, no label export).  Stale or absent file (CssMC.quick.labels.cfg) and the
+// thorough tier: the labels come from the model-checking run and the sample is drawn after it has finished
+// (C12_WRITE_VOCAB=1 rewrites the file).
 func seqHash(r *core.Run) string {
 	h := sha1.New()
-	for _, f := range []string{"Css.tla", "CssVals.tla", "CssSeq.tla", "CssMC.tla", "cfg/CssMC.quick.cfg"} {
+	for _, f := range []string{"Css.tla", "CssVals.tla", "CssSeq.tla", "CssMC.tla", "cfg/CssMC.quick.cfg", "cfg/CssMC.quick.labels.cfg"} {
 		b, _ := os.ReadFile(filepath.Join(r.Verif, "spec", f))
 		h.Write(b)
 	}
@@ -124,21 +125,6 @@ func writeSeqLabels(r *core.Run, members []*seqMember) {
 	os.WriteFile(seqLabelPath(r), b, 0644)
 }
 
-// fingerprint of a label table (members with their labels, order-free)
-func seqFingerprint(members []*seqMember) string {
-	var lines []string
-	for _, m := range members {
-		var ls []string
-		for _, l := range m.L {
-			ls = append(ls, labelKey("", l))
-		}
-		sort.Strings(ls)
-		lines = append(lines, m.key+"="+strings.Join(ls, ";"))
-	}
-	sort.Strings(lines)
-	h := sha1.Sum([]byte(strings.Join(lines, "\n")))
-	return hex.EncodeToString(h[:])
-}
 
 // seqSample draws the covering sample; the result is input for CssGen (choice vectors) and the family of each id
 func seqSample(r *core.Run, members []*seqMember) ([]genInput, map[string]string) {
